@@ -26,27 +26,28 @@ static void describe(sb_t *o)
 }
 
 /* option k of a call asking for n bytes -> answer (0 = everything, >0 = that many, <0 = -errno) */
+static const int ERRS[3] = {EIO, EINTR, ENOSPC};
 static int n_options(int is_write, size_t n)
 {
-	if (n == 0)
-		return 2; /* read at end of file: 0, or an error */
-	if (all_sizes)
-		return (int)n + 2; /* n sizes (full first) + 2 errors */
 	(void)is_write;
-	return 7;
+	if (n == 0)
+		return 4; /* read at end of file: 0, or one of three errors */
+	if (all_sizes)
+		return (int)n + 3; /* n sizes (full first) + 3 errors */
+	return 8;
 }
 static int option_answer(int is_write, size_t n, int k)
 {
-	int e1 = EIO, e2 = is_write ? ENOSPC : EINTR;
+	(void)is_write;
 	if (n == 0)
-		return k == 0 ? 0 : -e1;
+		return k == 0 ? 0 : -ERRS[k - 1];
 	if (all_sizes)
 	{
 		if (k == 0)
 			return 0;
 		if (k < (int)n)
 			return k; /* sizes 1..n-1 */
-		return k == (int)n ? -e1 : -e2;
+		return -ERRS[k - (int)n];
 	}
 	switch (k)
 	{
@@ -55,8 +56,7 @@ static int option_answer(int is_write, size_t n, int k)
 	case 2: return n > 2 ? 2 : 1;
 	case 3: return n / 2 ? (int)(n / 2) : 1;
 	case 4: return n > 1 ? (int)n - 1 : 1;
-	case 5: return -e1;
-	default: return -e2;
+	default: return -ERRS[k - 5];
 	}
 }
 static int io_choice(int is_write, size_t asked)
